@@ -27,4 +27,10 @@ CHECKS["C05"] = {
     "text": "All programs of 2 (complete, direct and via awaited sub-flow) and 3 (quick: reduced; thorough: complete; plus reduced n=4) competing flows over the table mention-mask x action x loop x priority are run for every trigger event, two events deep, with every random.choice outcome; per loop exactly one Start event, winner in the arg-max of the documented score, identical actions co-win and start once, losers failed, non-fitting flows untouched.",
     "note": _E1_NOTE,
 }
+CHECKS["C06"] = {
+    "engine": "E1-v2x", "level": "model_checking",
+    "technique": "explicit-state model checking of the implementation: BFS over all event histories of enumerated hierarchy programs, lifetime / Stop-accounting / activation monitors on every state",
+    "text": "Four program templates (child/parent/main hierarchies built from start/await/activate/when/groups holding actions; siblings sharing an identical action; several activators incl. nested activation and immediately-finishing activated flows; when/await-group scopes) with every slot combination, explored over all histories of {4 events, Finished of pending actions, StopFlow of the parent} to depth 4-5 (quick) / 6-7 (thorough) with all tie-breaks; monitors: no running flow below a finished/failed ancestor, Stop only for started+unfinished+unstopped actions and never while another running flow holds the action (unless its scope closed), unfinished unheld actions got exactly one Stop, activated flow has exactly one running instance iff an activator runs, immediately-finishing activated flow runs once.",
+    "note": _E1_NOTE + " Activators are known statically because generated programs put `activate` first in a flow.",
+}
 NOT_APPLICABLE = {}
